@@ -101,4 +101,69 @@ theorem content_length (img : Image) (wf : WF img) :
     (content img).pix.length = 4 * (img.shape.width * img.shape.height) := by
   rw [← iter_bytes img wf, bytes_length, iter_length img wf]
 
+/-! ## the hypotheses are met by what the constructors build -/
+
+theorem wf_crop (data : Array RGBA) (s : Shape) (wf : WF ⟨data, s⟩) (hcs : 0 < s.colStride)
+    (r0 r1 c0 c1 : Nat) (hr : r0 < r1) (hr1 : r1 ≤ s.height) (hc : c0 < c1) (hc1 : c1 ≤ s.width) :
+    WF ⟨data, s.crop r0 r1 c0 c1⟩ := by
+  constructor
+  · intro row col hrow hcol
+    simp only [Shape.crop] at hrow hcol
+    have := wf.inb (r0 + row) (c0 + col) (by simp only; omega) (by simp only; omega)
+    simp only [Shape.offset, Shape.crop] at this ⊢
+    rw [Nat.add_mul, Nat.add_mul] at this
+    omega
+  · simp only [Image.isEmpty, Shape.crop, Shape.offset]
+    have h1 : r0 * s.rowStride ≤ (r1 - 1) * s.rowStride := Nat.mul_le_mul_right _ (by omega)
+    have h2 : c0 * s.colStride < c1 * s.colStride := Nat.mul_lt_mul_of_pos_right hc hcs
+    constructor
+    · intro h; simp only [ge_iff_le, decide_eq_true_eq] at h; omega
+    · intro h; omega
+
+theorem wf_transpose (data : Array RGBA) (s : Shape) (wf : WF ⟨data, s⟩) : WF ⟨data, s.transpose⟩ := by
+  constructor
+  · intro row col hrow hcol
+    have := wf.inb col row hcol hrow
+    simp only [Shape.offset, Shape.transpose] at this ⊢
+    omega
+  · have := wf.empty_iff
+    constructor
+    · intro h; exact Or.symm (this.mp h)
+    · intro h; exact this.mpr (Or.symm h)
+
+/-- element `4*j + k` of the byte string of a pixel list -/
+theorem bytes_getElem (l : List RGBA) (j k : Nat) (hk : k < 4) :
+    (l.flatMap RGBA.bytes)[4 * j + k]? = (l[j]?).bind (fun c => c.bytes[k]?) := by
+  induction l generalizing j with
+  | nil => simp
+  | cons c l ih =>
+    cases j with
+    | zero =>
+      simp only [List.flatMap_cons, Nat.mul_zero, Nat.zero_add, List.getElem?_cons_zero, Option.bind_some]
+      rw [List.getElem?_append_left (by simp [RGBA.bytes]; omega)]
+    | succ j =>
+      simp only [List.flatMap_cons, List.getElem?_cons_succ]
+      rw [List.getElem?_append_right (by simp [RGBA.bytes]; omega)]
+      have : 4 * (j + 1) + k - (RGBA.bytes c).length = 4 * j + k := by simp [RGBA.bytes]; omega
+      rw [this, ih]
+
+/-- row-major: byte `k` of pixel (row, col) sits at index `4 * (row * width + col) + k` -/
+theorem content_index (img : Image) (wf : WF img) (row col k : Nat) (hr : row < img.shape.height)
+    (hc : col < img.shape.width) (hk : k < 4) :
+    (content img).pix[4 * (row * img.shape.width + col) + k]? = (img.pixel row col).bytes[k]? := by
+  rw [← iter_bytes img wf, bytes_getElem _ _ _ hk, iter_eq img wf]
+  have hlt : row * img.shape.width + col < img.shape.width * img.shape.height := by
+    have : row * img.shape.width + img.shape.width ≤ img.shape.height * img.shape.width := by
+      have := Nat.mul_le_mul_right img.shape.width (Nat.succ_le_of_lt hr)
+      rw [Nat.succ_mul] at this; exact this
+    rw [Nat.mul_comm img.shape.width]; omega
+  have hw : 0 < img.shape.width := by omega
+  rw [List.getElem?_map, List.getElem?_range hlt]
+  simp only [Option.map_some, Option.bind_some, flat]
+  have e1 : (row * img.shape.width + col) / img.shape.width = row := by
+    rw [Nat.mul_comm, Nat.mul_add_div hw, Nat.div_eq_of_lt hc]; rfl
+  have e2 : (row * img.shape.width + col) % img.shape.width = col := by
+    rw [Nat.mul_comm, Nat.mul_add_mod, Nat.mod_eq_of_lt hc]
+  rw [e1, e2]
+
 end SurfProofs.Lemmas.KittyIter
